@@ -53,9 +53,10 @@ type Watch struct {
 	Calls    int
 	Tomb     string // set if a tombstone was ever passed to the callback
 	cancel   context.CancelFunc
-	Epoch    int           // node incarnation it was registered on
-	ChangeAt int           // node change counter at registration
-	slow     time.Duration // how long the callback takes
+	Epoch    int            // node incarnation it was registered on
+	VisAt    map[string]int // per key: the node's visible-change counter at registration
+	ChangeAt int            // node change counter at registration
+	slow     time.Duration  // how long the callback takes
 	// scratch for harnesses that poll the watcher
 	SeenValue string
 	SeenCalls int
@@ -70,7 +71,9 @@ type Cluster struct {
 	RingC        []*memberlist.Client
 	PRingC       []*memberlist.Client
 	Epoch        []int
-	Changes      []int // per node: number of observed state changes (any key)
+	Changes      []int            // per node: number of observed state changes (any key)
+	VisChanges   []map[string]int // per node and key: number of observed changes of what readers see
+	lastVis      []map[string]string
 	Pool         []*Wire
 	nextID       int
 	Watches      []*Watch
@@ -88,6 +91,8 @@ func NewCluster(b *vx.B, n int, cfg func(*memberlist.KVConfig)) *Cluster {
 	c.PRingC = make([]*memberlist.Client, n)
 	c.Epoch = make([]int, n)
 	c.Changes = make([]int, n)
+	c.VisChanges = make([]map[string]int, n)
+	c.lastVis = make([]map[string]string, n)
 	c.lastCanon = make([]string, n)
 	for i := 0; i < n; i++ {
 		c.startNode(i)
@@ -139,6 +144,7 @@ func (c *Cluster) Restart(i int) {
 	c.Epoch[i]++
 	c.startNode(i)
 	c.lastCanon[i] = ""
+	c.lastVis[i], c.VisChanges[i] = nil, nil
 	c.Stats["restarts"]++
 }
 
@@ -218,6 +224,21 @@ func (c *Cluster) Canon(i int) string {
 
 // NoteChange bumps the node's change counter if its state differs from the last observation.
 func (c *Cluster) NoteChange(i int) bool {
+	// what readers of each key see (tombstones stripped)
+	r, p := c.State(i)
+	vr, vp := model.CloneDesc(r), model.ClonePDesc(p)
+	vr.RemoveTombstones(time.Time{})
+	vp.RemoveTombstones(time.Time{})
+	if c.lastVis[i] == nil {
+		c.lastVis[i] = map[string]string{}
+		c.VisChanges[i] = map[string]int{}
+	}
+	for key, cv := range map[string]string{RingKey: model.CanonDescN(vr), PRingKey: model.CanonPDescN(vp)} {
+		if old, ok := c.lastVis[i][key]; ok && old != cv {
+			c.VisChanges[i][key]++
+		}
+		c.lastVis[i][key] = cv
+	}
 	cur := c.Canon(i)
 	if cur != c.lastCanon[i] {
 		c.lastCanon[i] = cur
@@ -351,7 +372,11 @@ func Tombstones(r *ring.Desc, p *ring.PartitionRingDesc) string {
 // AddWatch registers a key or prefix watcher on node i.
 func (c *Cluster) AddWatch(i int, key string, prefix bool, useRingClient bool) *Watch {
 	ctx, cancel := context.WithCancel(context.Background())
-	w := &Watch{Node: i, Key: key, Prefix: prefix, Last: map[string]string{}, cancel: cancel, Epoch: c.Epoch[i], ChangeAt: c.Changes[i]}
+	c.NoteChange(i)
+	w := &Watch{Node: i, Key: key, Prefix: prefix, Last: map[string]string{}, cancel: cancel, Epoch: c.Epoch[i], ChangeAt: c.Changes[i], VisAt: map[string]int{}}
+	for k, v := range c.VisChanges[i] {
+		w.VisAt[k] = v
+	}
 	cl := c.RingC[i]
 	if !useRingClient {
 		cl = c.PRingC[i]
